@@ -490,14 +490,18 @@ func main() {
 	}
 	// (a) event-level exploration of the real TXPoolServer handlers (server.go)
 	srvStates, srvTrans := serverPart(r)
+	// (d) schedules of the server / worker seam (seam.go)
+	seamSchedules, seamPoints := seamPart(r)
 	r.Assume("scheduling points = lock acquire/release (and operation boundaries); unsynchronised accesses are the job of the separate -race pass",
 		"RLock is enabled whenever no writer holds the lock (Go's writer preference is not modelled: superset of real schedules)",
 		"3 goroutines x <=2 operations per scenario, transactions forced to collide")
 	r.Finish(map[string]any{
-		"rule":                          fmt.Sprintf("(a) BFS over the real TXPoolServer/worker/TxActor handlers (submit net/http of 3 txs, worker dequeues, validator responses stateless|stateful x ok|err x height 1|2, timeout, getTxPool, verifyBlock, clean) from 7 initial configurations (pool empty|A|A,B|A + B,C in flight x pre-exec on|off) to depth %d (map rotation 0; rotations 1,2 to depth 5|8), MAX_CAPACITY=2 MaxTxInBlock=1, oracle = no duplicate / capacity / fully verified / hand-out height and count / re-queue of stale txs / clean removes exactly the block / conservation; (b) ", r.QT(7, 10)) + fmt.Sprintf("%d scenarios; all schedules with <= %d preemptions (iterative context bounding, DFS over choice prefixes); every history checked for linearizability against a map model with output validation", len(scenarios()), bound),
+		"rule":                          fmt.Sprintf("(d) server/worker seam: worker's final verdict for the last tx of a pending block || consensus committing the block once VerifyBlockRsp is out || getTxPool reader, all schedules over the lock operations of TXPoolServer/txPoolWorker/TXPool with bounded preemptions, end-state oracle (no committed tx pooled / pending / handed out); (a) BFS over the real TXPoolServer/worker/TxActor handlers (submit net/http of 3 txs, worker dequeues, validator responses stateless|stateful x ok|err x height 1|2, timeout, getTxPool, verifyBlock, clean) from 7 initial configurations (pool empty|A|A,B|A + B,C in flight x pre-exec on|off) to depth %d (map rotation 0; rotations 1,2 to depth 5|8), MAX_CAPACITY=2 MaxTxInBlock=1, oracle = no duplicate / capacity / fully verified / hand-out height and count / re-queue of stale txs / clean removes exactly the block / conservation; (b) ", r.QT(7, 10)) + fmt.Sprintf("%d scenarios; all schedules with <= %d preemptions (iterative context bounding, DFS over choice prefixes); every history checked for linearizability against a map model with output validation", len(scenarios()), bound),
 		"states":                        totalPoints + srvStates,
 		"transitions":                   totalPoints + srvTrans,
 		"traces_validated_against_impl": totalExec + srvTrans,
+		"seam_schedules":                seamSchedules,
+		"seam_schedule_points":          seamPoints,
 		"server_states":                 srvStates,
 		"server_transitions":            srvTrans,
 		"schedule_points":               totalPoints,
